@@ -5,6 +5,7 @@ CONSTANTS
   MaxUrl = 3
   ReuseOnLookup = FALSE
   FabricatedNorm = FALSE
+  WildHostCheck = TRUE
   KF_Shadow = TRUE
   Source = "all"
   NChunks = 64
